@@ -7,11 +7,11 @@ set -u
 D=$1; P=$2; TIER=${3:-quick}
 W=/tmp/eval_$$
 git -C /repo worktree add -q --detach $W HEAD || exit 9
-trap "git -C /repo worktree remove --force $W" EXIT
-echo "== demo on clean tree"; timeout 300 /venv/bin/python $D/demo.py $W >/tmp/demo_clean.log 2>&1; echo "rc=$?"
+trap "git -C /repo worktree remove --force $W; rm -f /tmp/demo_clean_$$.log /tmp/demo_patched_$$.log" EXIT
+echo "== demo on clean tree"; timeout 300 /venv/bin/python $D/demo.py $W >/tmp/demo_clean_$$.log 2>&1; echo "rc=$?"
 git -C $W apply $D/patch.diff || { echo "patch does not apply"; exit 9; }
 echo "== test suite with patch"; (cd $W && /venv/bin/python -m pytest -q -p no:cacheprovider 2>&1 | tail -1)
-echo "== demo with patch"; timeout 300 /venv/bin/python $D/demo.py $W >/tmp/demo_patched.log 2>&1; echo "rc=$?"; tail -2 /tmp/demo_patched.log
+echo "== demo with patch"; timeout 300 /venv/bin/python $D/demo.py $W >/tmp/demo_patched_$$.log 2>&1; echo "rc=$?"; tail -2 /tmp/demo_patched_$$.log
 echo "== check $P ($TIER)"
 cd /verif && VERIF_REPO_ROOT=$W timeout 3000 /venv/bin/python vcheck.py $P --tier $TIER 2>&1 | grep -E "^violation|^  |VIOLATION|KNOWN|HARNESS|^C[0-9]+:" | cut -c1-400 | head -12
 echo "check rc=${PIPESTATUS[0]}"
